@@ -20,6 +20,11 @@ pub mod url_standin {
     use vstd::prelude::*;
     #[verifier::external_body]
     pub struct Url { _p: () }
+    impl Url {
+        // contract-only stand-in: the serialization of the URL (total, no precondition)
+        #[verifier::external_body]
+        pub fn as_str(&self) -> &str { unimplemented!() }
+    }
     impl core::fmt::Display for Url {
         #[verifier::external_body]
         fn fmt(&self, f: &mut core::fmt::Formatter<'_>) -> core::fmt::Result { unimplemented!() }
